@@ -42,9 +42,9 @@ func thisField(info *types.Info, e ast.Expr) *types.Var {
 
 type typeTables struct {
 	fields, deser, assigned, serialized, context, getters, setters map[string]bool
-	claimed                                                         map[string]bool // raw JSON keys
-	unknownStored, unknownEmitted                                   bool
-	problems                                                        []string
+	claimed                                                        map[string]bool // raw JSON keys
+	unknownStored, unknownEmitted                                  bool
+	problems                                                       []string
 }
 
 func extractTypeTables(M *GenModel, tm *TypeModel) *typeTables {
